@@ -321,7 +321,8 @@ def gen_membrane(rng, mixture, n1=None, n2=None, stated=None, on_line=None, same
     e2, ea2 = gen_experiments(rng, mixture.second_component, n2, stated2, ol, units)
     exps = e1 + e2
     rng.shuffle(exps)
-    return Membrane(name="M", ideal_experiments=IdealExperiments(experiments=exps))
+    # sequence flavours: the library's containers are typed as lists, tuples work just as well in the pinned library
+    return Membrane(name="M", ideal_experiments=IdealExperiments(experiments=tuple(exps) if rng.random() < 0.12 else exps))
 
 
 def describe_membrane(mem):
@@ -410,6 +411,8 @@ def gen_program(rng, t0, duration, ndarray=0.2):
         import numpy
 
         coeffs = numpy.array(coeffs, dtype=float)  # e.g. straight from numpy.polyfit
+    elif rng.random() < 0.15:
+        coeffs = tuple(coeffs)
     return TemperatureProgram(coefficients=coeffs, type=kind)
 
 
@@ -471,13 +474,18 @@ def gen_curve_set(rng, mixture, n_curves=None, basis=None, n_points=None, units=
                     permeance_in_units(law2(w, t), units, mixture.second_component),
                 )
             )
+        flavour = rng.random()
+        if flavour < 0.08:
+            comps, perms = tuple(comps), tuple(perms)
+        elif flavour < 0.16:
+            perms = [list(p) for p in perms]
         curves.append(
             DiffusionCurve(
                 mixture=mixture, membrane_name="M", feed_temperature=t,
                 feed_compositions=comps, permeances=perms, comments="synthetic",
             )
         )
-    return DiffusionCurveSet(name="synthetic", diffusion_curves=curves), {
+    return DiffusionCurveSet(name="synthetic", diffusion_curves=tuple(curves) if rng.random() < 0.1 else curves), {
         "law1": d1, "law2": d2, "temps": temps, "basis": basis, "units": units,
         "points": [len(c) for c in curves],
     }
@@ -507,7 +515,10 @@ class FluxCase:
         if rng.random() < 0.05:
             import pickle
 
-            self.mix, self.membrane = pickle.loads(pickle.dumps((self.mix, self.membrane)))  # equal values, new identities
+            import copy
+
+            # equal values, new identities: through pickle, or a deep copy (what a user does before a what-if study)
+            self.mix, self.membrane = pickle.loads(pickle.dumps((self.mix, self.membrane))) if rng.random() < 0.5 else copy.deepcopy((self.mix, self.membrane))
         self.pv = Pervaporation(self.membrane, self.mix)
         self.t_feed = pick_temperature(rng, 273.0, 400.0)
         self.comp = pooled_composition(rng) if rng.random() < 0.15 else gen_composition(rng, self.mix, edge=edge)
